@@ -371,6 +371,9 @@ class Read(Relation):
     name = 'C10.read'
     examples = {'quick': 400, 'thorough': 2500}
     shards = {'quick': 8, 'thorough': 16}
+    # coverage-guided tier: (shards, libFuzzer runs per shard)
+    guided = {'quick': (2, 1000), 'thorough': (16, 20000)}
+    guided_modules = ['regions.io', 'regions.core.metadata']
 
     def strategy(self, tier):
         return ds9_file(12 if tier == 'quick' else 30)
